@@ -106,9 +106,9 @@ def trace(tau_max):
         return explore(run, maxpaths=32)
 
 
-def deductive(res, agg):
+def deductive(res, agg, tier="quick"):
     fn = "OPA._fit_algorithm"
-    for tau_max in (1, 2, 3):
+    for tau_max in ((1, 2, 3) if tier == "quick" else (1, 2, 3, 4, 5, 6, 8)):
         cfg = f"tau_max={tau_max}"
         try:
             paths = trace(tau_max)
@@ -272,7 +272,7 @@ def run(tier, seed):
                        "Rayleigh-Ritz (optimality of the leading eigenvector) is an axiom; bounded runs probe it with random combinations"]
     res.trusted = ["CPython on proxies", "vf/sym normaliser", "z3 (NRA for sqrt(n-1))"]
     agg = Agg(res, "C19")
-    deductive(res, agg)
+    deductive(res, agg, tier)
     agg.flush()
     run_bounded(res, tier, seed)
     return res
